@@ -300,6 +300,19 @@ def step_delete(ctx, data, doc_text, segs, prefix="delete", history=None, reload
     if any(l is None for l in locs):
         ctx.count("abstain_target_inherited_through_merge_key")
         return False
+    # an aliased container is ONE node: a child deleted from it is gone at every path that reaches the container
+    allpos = E.positions(data)
+    if any(yp.is_container(n) and yp.anchor_of(n) is not None for (_l, n, _p, _r) in allpos):
+        extra = []
+        for p in res:
+            if p.parent is not None:
+                for (loc, _n, par, ref) in allpos:
+                    same = (loc[-1] == p.ord[-1]) if isinstance(par, list) else (type(ref) is type(p.ref) and ref == p.ref)
+                    if par is p.parent and same and loc not in locs and loc not in extra:
+                        extra.append(loc)
+        if extra:
+            ctx.count("delete_targets_inside_aliased_container")
+            locs = locs + extra
     ctx.evaluations += 1
     ctx.count("delete_steps")
     try:
